@@ -278,4 +278,10 @@ def wallBuild (ncell : Int) (verts : Int → List (V3 α)) (perm : List Int) : S
     let (st, s) := go s0 perm
     (st, some s)
 
+/-- `ref_phys_local_wall` (3-D): the wall triangles first, then every wall quad as the two triangles
+    `(0,1,2)` and `(0,2,3)`, in cell order -/
+def localWall3 (tris : List (V3 α × V3 α × V3 α)) (quads : List (V3 α × V3 α × V3 α × V3 α)) :
+    List (V3 α × V3 α × V3 α) :=
+  tris ++ quads.flatMap (fun q => [(q.1, q.2.1, q.2.2.1), (q.1, q.2.2.1, q.2.2.2)])
+
 end Refine.Model.Search
